@@ -148,10 +148,11 @@ def check(world, plans, results):
             elif rh.get("size") != len(h):
                 v.fail("history:size", "size out-value %r but %d members" % (rh.get("size"), len(h)))
             else:
+                hf = [x for x in h if tree.is_fileish(x[0])]
                 for n, p in enumerate(model["consulted"]):
                     single = tagged(plan, res, "d_single%d" % n)
                     sc, ss = dump_to_conf(single)
-                    if sc.entries != h[n][1].entries:
+                    if sc.entries != hf[n][1].entries:
                         v.fail("history:member", "history member %d (%s) differs from an independent read of that file" % (n, p))
                         break
             # the fold does not use its inputs up
